@@ -253,6 +253,10 @@ def run(ctx):
                 f = Failure('oracle', desc, probs, None, probs[0], 'Vakt.C09.policy_roundtrip_partial')
                 f.signature = ('uid-type:' if uid_only and len(probs) == 1 else 'meaning:') + path.split('+')[0]
                 out.failures.append(f)
+        # a policy object that is written, changed in place (no attribute assignment) and written again: what is read
+        # back must be the policy as it stood at the second write
+        if rng.random() < 0.5:
+            _inplace_rewrite(out, rng, p, obj, qobjs, qs)
         out.nontriv(repr(p))
         if len(out.samples) < 3 and any(True in r for r in m0):
             out.samples.append({'policy': repr(p)[:400], 'probes': len(qs), 'paths': PATHS,
@@ -267,6 +271,62 @@ def run(ctx):
                 'asked the same 8 derived probes under all four checkers (per-field fits + context); plus generated JSON '
                 'documents with missing / extra / legacy fields decoded by Policy.from_json and by the model')
     return out
+
+
+def _inplace_rewrite(out, rng, p, obj, qobjs, qs):
+    import copy
+    path = pick(rng, ['json', 'sqlite', 'mongo', 'redis-json', 'redis-pickle', 'memory'])
+    try:
+        o2 = copy.deepcopy(obj)
+    except Exception:
+        return
+    out.evaluations += 1
+    out.count('inplace:' + path)
+    desc = {'path': path + ' (write, change in place, write again)', 'policy': repr(p)}
+    try:
+        if path == 'json':
+            o2.to_json()
+        else:
+            st = stores.make_base(path)
+            st.add(o2)
+        # the change: one more context restriction, and the first list-valued field loses its last element
+        change = []
+        o2.context['zz_added'] = Eq('never-equal-to-this')
+        change.append("context['zz_added'] = Eq(..)")
+        for fld in ('subjects', 'resources', 'actions'):
+            v = getattr(o2, fld)
+            if isinstance(v, list) and len(v) >= 2:
+                v.pop()
+                change.append('%s.pop()' % fld)
+                break
+        desc['change'] = change
+        if path == 'json':
+            back = Policy.from_json(o2.to_json())
+        else:
+            st.update(o2)
+            back = st.get(o2.uid)
+    except (InvalidPatternError, re.error):
+        return
+    except Exception as e:
+        f = Failure('oracle', desc, '%s: %s' % (type(e).__name__, str(e)[:200]), None,
+                    'writing / reading the policy back raised', 'Vakt.C09.policy_roundtrip')
+        f.signature = 'raised-inplace:' + path
+        out.failures.append(f)
+        return
+    if back is None or not isinstance(back, Policy):
+        f = Failure('oracle', desc, repr(back)[:100], None, 'the stored policy cannot be read back', 'Vakt.C09.policy_roundtrip')
+        f.signature = 'lost-inplace:' + path
+        out.failures.append(f)
+        return
+    probs = []
+    if set(back.context) != set(o2.context):
+        probs.append('context keys %r -> %r' % (sorted(o2.context), sorted(back.context)))
+    elif meaning(back, qobjs) != meaning(o2, qobjs):
+        probs.append('matches differently from the policy as it stood at the second write')
+    if probs:
+        f = Failure('oracle', desc, probs, None, probs[0], 'Vakt.C09.policy_roundtrip (the document written is the policy at the time of writing)')
+        f.signature = 'meaning-inplace:' + path
+        out.failures.append(f)
 
 
 def _jkey(x):
